@@ -128,6 +128,22 @@ def wire_consts():
     one(r"if tag == INITIALIZED \{", store, "StoreInitializedCodec compares with INITIALIZED")
     one(r"if tag == EVENT \{", store, "StoreResponseDecoder compares with EVENT")
     one(r"if src\.remaining\(\) <= TAG_LEN \{", store, "StoreResponseDecoder header guard `<= TAG_LEN`")
+    # the discard arithmetic of the length-delimited Recon body decoders (modelled in Model/FrameDiscard.lean):
+    # in the `Err(e)` arm of `ReadingBody`: `let rem = src.remaining(); if rem >= *remaining { src.advance(*remaining);
+    # .. } else { src.clear(); .. Discarding { remaining: <expr>, .. } }`
+    def discard_exprs(text, what):
+        flat = re.sub(r"\s+", " ", text)
+        xs = re.findall(r"let rem = src\.remaining\(\); if rem >= \*remaining \{ src\.advance\(\*remaining\); "
+                        r"\*state = \w+::ReadingHeader; break Err\([^)]*\)\)?; \} else \{ src\.clear\(\); "
+                        r"\*state = \w+::Discarding \{ remaining: ([^,]+),", flat)
+        if not xs:
+            raise ExtractError(f"{what}: the error arm `rem >= *remaining .. Discarding {{ remaining: .. }}` was not found")
+        return xs
+    recon_enc = src("api/formats/swimos_recon/src/encoding.rs")
+    tabs.append(("wlrDiscardArms", discard_exprs(recon_enc, "WithLenRecognizerDecoder")))
+    tabs.append(("dlNotDiscardArms", discard_exprs(dl, "DownlinkNotificationDecoder")))
+    one(r"let to_split = remaining\.min\(src\.remaining\(\)\);", codec, "consume_bounded bounds the slice")
+    one(r"let end_of_message = remaining <= buf_remaining;", codec, "consume_bounded end_of_message")
     for name, xs in tabs:
         L.append(f"def {name} : List String := {lean_strs(xs)}")
     return (HEADER + "namespace SwimVerif.Generated.Wire\n" + "\n".join(L) + "\nend SwimVerif.Generated.Wire\n")
